@@ -12,7 +12,7 @@ import (
 	. "vh/vhlib"
 )
 
-var gens = map[string]GenFn{"SrcTokens": genSrcTokens, "HealthOps": genHealthOps, "LBTokens": genLBTokens, "HealthLoop": genHealthLoop}
+var gens = map[string]GenFn{"SrcTokens": genSrcTokens, "HealthOps": genHealthOps, "LBTokens": genLBTokens, "HealthLoop": genHealthLoop, "RRTokens": genRRTokens}
 
 // genSrcTokens: literal tokens / constants at named sites.
 //
@@ -544,5 +544,42 @@ func genHealthLoop(repo string) (string, error) {
 		return fail(fmt.Sprintf("check id allocation not recognised (before loop %d, loop top %v, match %d, else %d, timeout %d, total %d)", preAdd, loopTop, matchAdds, elseAdds, timeoutAdds, total))
 	}
 	b.WriteString("Definition HealthLoop_translator_ok := true.\n")
+	return b.String(), nil
+}
+
+// ---------------------------------------------------------------------------
+// genRRTokens: the index expression of the second (issue 1663) pass of roundRobinLoadBalancer.ChooseHost.
+// The printed function body (comments dropped) is compared with the two known shapes:
+//
+//	SPReduced : secondStartIndex := int(atomic.AddUint32(&lb.rrIndex, 1) % uint32(total)); index := (i + secondStartIndex) % total
+//	SPRaw     : secondStartIndex := atomic.AddUint32(&lb.rrIndex, 1); index := (secondStartIndex + uint32(i)) % uint32(total)
+//
+// Any other text => RRTokens_translator_ok := false.
+func rrChooseText(raw bool) string {
+	s := "{\n\ths := lb.hosts\n\ttotal := hs.Size()\n\tif total == 0 {\n\t\treturn nil\n\t}\n\tfor i := 0; i < total; i++ {\n\t\tindex := atomic.AddUint32(&lb.rrIndex, 1) % uint32(total)\n\t\thost := hs.Get(int(index))\n\t\tif host.Health() {\n\t\t\treturn host\n\t\t}\n\t}\n"
+	if raw {
+		s += "\tsecondStartIndex := atomic.AddUint32(&lb.rrIndex, 1)\n\tfor i := 0; i < total; i++ {\n\t\tindex := (secondStartIndex + uint32(i)) % uint32(total)\n\t\thost := hs.Get(int(index))\n"
+	} else {
+		s += "\tsecondStartIndex := int(atomic.AddUint32(&lb.rrIndex, 1) % uint32(total))\n\tfor i := 0; i < total; i++ {\n\t\tindex := (i + secondStartIndex) % total\n\t\thost := hs.Get(index)\n"
+	}
+	s += "\t\tif host.Health() {\n\t\t\treturn host\n\t\t}\n\t}\n\treturn nil\n}"
+	return s
+}
+
+func genRRTokens(repo string) (string, error) {
+	txt, err := funcText(repo, "pkg/upstream/cluster/loadbalancer.go", "roundRobinLoadBalancer", "ChooseHost")
+	if err != nil {
+		return "", err
+	}
+	var b strings.Builder
+	b.WriteString("From MV Require Import Model.RRConc.\n")
+	switch normText(txt) {
+	case normText(rrChooseText(false)):
+		b.WriteString("Definition rr_second_pass : sp_variant := SPReduced.\nDefinition RRTokens_translator_ok := true.\n")
+	case normText(rrChooseText(true)):
+		b.WriteString("Definition rr_second_pass : sp_variant := SPRaw.\nDefinition RRTokens_translator_ok := true.\n")
+	default:
+		b.WriteString("(* roundRobinLoadBalancer.ChooseHost: text not recognised *)\nDefinition rr_second_pass : sp_variant := SPReduced.\nDefinition RRTokens_translator_ok := false.\n")
+	}
 	return b.String(), nil
 }
